@@ -106,6 +106,27 @@ def combine(covs):
     return out
 
 
+A_OBS = [
+    "views: 0..2/3 stories x 11 timing shapes (no metadata, no payload, StoryDuration, TextTime, MediaTime, both, "
+    "StoryDuration+TextTime, explicit started / ended / both) x roEdStart present/absent; paragraph texts: every string up to "
+    "length 4/5 over {space, tab, nbsp, ( ) < > a}; bodies: every sequence up to 3/4 over {p, empty p, bracketed p, item, other}",
+    "numbers are quarter-second multiples and ISO times without zone (exact in floats); float rounding and other date formats are not decided",
+    "paragraphs with inline child elements are outside C17",
+]
+
+
+def obs_property(families, life=True):
+    def run(report, tier, seed):
+        from . import observe
+        covs = [("views", observe.run(report, tier, seed, families))]
+        if life:
+            covs.append(("life", pipeline.run_life_check(report, life_plans(tier), seed, tier, observe=True)))
+        cov = combine(covs)
+        cov["trusted_base"] = TRUSTED + ["harness/project.py view_ro_xml (direct read of timing / body data)", "harness/observe.py"]
+        return report.finish(cov, A_OBS + (A_LIFE if life else []))
+    return run
+
+
 def c12(report, tier, seed):
     from . import classify, collection
     covs = [("merge", pipeline.run_merge_check(report, fam(tier, story=STORY, item=ITEM, other=OTHER), seed, tier)),
@@ -152,4 +173,7 @@ REGISTRY = {
     "C13": life_property(A_LIFE),
     "C14": life_property(A_LIFE),
     "C12": c12,
+    "C15": obs_property(("timing", "text")),
+    "C16": obs_property(("timing",)),
+    "C17": obs_property(("text",)),
 }
